@@ -204,61 +204,33 @@ def super_init_args(func, model):
     return None, {}
 
 
-def run(ctx, ck):
-    prog = ctx.program
+def find_diag_store(ctx):
     m = ctx.model
-    ck.rule('R-EXH.diagonal', 'each (load, pulse) adds once to Z[j][j], j = pulse.idx')
-    ck.rule('R-SIB.weight', 'load weight on the diagonal == source weight in the rhs (incl. doubling)')
-    ck.rule('R-IFACE.load', 'concrete load classes implement the 4 methods with the used call shapes')
-    ck.rule('R-POLY.circuit', 'coefficient lists equal the circuit impedance as rational functions')
-    ck.rule('R-DEP.skin', 'conductivity = 1/resistivity only; impedance reads conductivity')
-    ck.rule('R-EXH.attach', 'attach-to-all touches each pulse once; load registered once')
-
-    # ---------------------------------------------------------------- D1
     f = m.func(LOADS)
     fl = ctx.flow(f)
-    ls = [l for l in loops_in(f.node) if isinstance(l, ast.For)]
-    outer = [l for l in ls if norm(l.iter) == 'self.loads']
-    ck.floor('loops over self.loads', len(outer), 1)
     store = None
-    for ol in outer:
-        inner = [l for l in loops_in(ol) if isinstance(l, ast.For)]
-        lv = ol.target.id if isinstance(ol.target, ast.Name) else '?'
-        inner = [l for l in inner if norm(l.iter) == '%s.pulses' % lv]
-        ck.ob('R-EXH.diagonal', LOADS + '|loops', len(inner) == 1, f.loc(ol),
-              'for every load, for every pulse of the load')
-        for il in inner:
-            def is_diag_add(n):
-                s = n.stmt
-                if not (n.kind == 'stmt' and isinstance(s, ast.AugAssign) and isinstance(s.op, ast.Add)):
-                    return False
-                t = s.target
-                idx = []
-                while isinstance(t, ast.Subscript):
-                    if isinstance(t.slice, ast.Tuple):
-                        idx = [norm(x) for x in t.slice.elts] + idx
-                    else:
-                        idx = [norm(t.slice)] + idx
-                    t = t.value
-                return dotted(t) == 'self.Z' and len(idx) == 2 and idx[0] == idx[1]
-            mn, mx = loop_reaches_on_all_paths(fl, il, is_diag_add)
-            ck.ob('R-EXH.diagonal', LOADS + '|one-add-per-pulse', (mn, mx) == (1, 1), f.loc(il),
-                  'diagonal `+=` per (load, pulse): min %s max %s' % (mn, mx))
-            for n in fl.cfg.nodes:
-                if n.stmt is not None and is_diag_add(n):
-                    store = n
+    for n in fl.cfg.nodes:
+        s_ = n.stmt
+        if n.kind == 'stmt' and isinstance(s_, ast.AugAssign) and isinstance(s_.op, ast.Add):
+            t = s_.target
+            idx = []
+            while isinstance(t, ast.Subscript):
+                idx = ([norm(x) for x in t.slice.elts] if isinstance(t.slice, ast.Tuple) else [norm(t.slice)]) + idx
+                t = t.value
+            if dotted(t) == 'self.Z' and len(idx) == 2 and idx[0] == idx[1]:
+                store = n
     if store is None:
         raise AnalysisError('no `self.Z[j][j] += ...` found in compute_impedance_matrix_loads')
     st = store.stmt
-    t = st.target
-    j = t.slice
+    j = st.target.slice
     jn = norm(j if not isinstance(j, ast.Tuple) else j.elts[0])
     jd = fl.single_def(jn, store.id) if jn.isidentifier() else None
-    ok = jd is not None and isinstance(jd[0], ast.Attribute) and jd[0].attr == 'idx'
-    ck.ob('R-EXH.diagonal', LOADS + '|index=pulse.idx', ok, f.loc(st),
-          'diagonal index %s = %s' % (jn, norm(jd[0]) if jd else '?'))
+    return f, fl, store, st, jd
 
-    # ---------------------------------------------------------------- D2
+
+def check_weights(ctx, ck):
+    m = ctx.model
+    f, fl, store, st, jd = find_diag_store(ctx)
     def is_imp(tx):
         return '.impedance(' in tx
     l_alts = split_weight(weight_alternatives(fl, st.value, store.id), is_imp)
@@ -323,6 +295,64 @@ def run(ctx, ck):
                  isinstance(c.func, ast.Attribute) and c.func.attr == 'impedance']
     ok = len(imp_calls) == 1 and [norm(a) for a in imp_calls[0].args] == ['self.f', norm(jd[0].value) if jd else '?']
     ck.ob('R-SIB.weight', 'payload', ok, f.loc(st), 'adds %s' % (norm(imp_calls[0]) if imp_calls else '?'))
+
+
+
+def run(ctx, ck):
+    prog = ctx.program
+    m = ctx.model
+    ck.rule('R-EXH.diagonal', 'each (load, pulse) adds once to Z[j][j], j = pulse.idx')
+    ck.rule('R-SIB.weight', 'load weight on the diagonal == source weight in the rhs (incl. doubling)')
+    ck.rule('R-IFACE.load', 'concrete load classes implement the 4 methods with the used call shapes')
+    ck.rule('R-POLY.circuit', 'coefficient lists equal the circuit impedance as rational functions')
+    ck.rule('R-DEP.skin', 'conductivity = 1/resistivity only; impedance reads conductivity')
+    ck.rule('R-EXH.attach', 'attach-to-all touches each pulse once; load registered once')
+
+    # ---------------------------------------------------------------- D1
+    f = m.func(LOADS)
+    fl = ctx.flow(f)
+    ls = [l for l in loops_in(f.node) if isinstance(l, ast.For)]
+    outer = [l for l in ls if norm(l.iter) == 'self.loads']
+    ck.floor('loops over self.loads', len(outer), 1)
+    store = None
+    for ol in outer:
+        inner = [l for l in loops_in(ol) if isinstance(l, ast.For)]
+        lv = ol.target.id if isinstance(ol.target, ast.Name) else '?'
+        inner = [l for l in inner if norm(l.iter) == '%s.pulses' % lv]
+        ck.ob('R-EXH.diagonal', LOADS + '|loops', len(inner) == 1, f.loc(ol),
+              'for every load, for every pulse of the load')
+        for il in inner:
+            def is_diag_add(n):
+                s = n.stmt
+                if not (n.kind == 'stmt' and isinstance(s, ast.AugAssign) and isinstance(s.op, ast.Add)):
+                    return False
+                t = s.target
+                idx = []
+                while isinstance(t, ast.Subscript):
+                    if isinstance(t.slice, ast.Tuple):
+                        idx = [norm(x) for x in t.slice.elts] + idx
+                    else:
+                        idx = [norm(t.slice)] + idx
+                    t = t.value
+                return dotted(t) == 'self.Z' and len(idx) == 2 and idx[0] == idx[1]
+            mn, mx = loop_reaches_on_all_paths(fl, il, is_diag_add)
+            ck.ob('R-EXH.diagonal', LOADS + '|one-add-per-pulse', (mn, mx) == (1, 1), f.loc(il),
+                  'diagonal `+=` per (load, pulse): min %s max %s' % (mn, mx))
+            for n in fl.cfg.nodes:
+                if n.stmt is not None and is_diag_add(n):
+                    store = n
+    if store is None:
+        raise AnalysisError('no `self.Z[j][j] += ...` found in compute_impedance_matrix_loads')
+    st = store.stmt
+    t = st.target
+    j = t.slice
+    jn = norm(j if not isinstance(j, ast.Tuple) else j.elts[0])
+    jd = fl.single_def(jn, store.id) if jn.isidentifier() else None
+    ok = jd is not None and isinstance(jd[0], ast.Attribute) and jd[0].attr == 'idx'
+    ck.ob('R-EXH.diagonal', LOADS + '|index=pulse.idx', ok, f.loc(st),
+          'diagonal index %s = %s' % (jn, norm(jd[0]) if jd else '?'))
+
+    check_weights(ctx, ck)
 
     # ---------------------------------------------------------------- D3
     shapes = {'impedance': (2, []), 'as_cmdline': (1, ['by_geo']), 'as_basic_input': (2, []),
